@@ -19,7 +19,7 @@ from vlib.prog import Program
 
 HIER = {"classes": [{"bases": []}, {"bases": [0]}, {"bases": [1]}, {"bases": []}]}
 KN = ["K0", "K1", "K2", "K3"]
-ORIGINS1 = ["list", "Sequence", "Iterable", "set"]
+ORIGINS1 = ["list", "Sequence", "Iterable", "set", "tuple"]
 TYPING_SPELL = {"list": typing.List, "dict": typing.Dict, "Sequence": typing.Sequence, "Iterable": typing.Iterable,
                 "set": typing.Set}
 
@@ -35,7 +35,8 @@ def inner_strategy(depth=2):
     sub = inner_strategy(depth - 1)
     gen1 = st.tuples(st.sampled_from(ORIGINS1), sub).map(lambda t: ["gen", t[0], [t[1]]])
     gen2 = st.tuples(sub, sub).map(lambda t: ["gen", "dict", [t[0], t[1]]])
-    return st.one_of(cls, cls, gen1, gen1, gen2)
+    gent = st.lists(sub, min_size=2, max_size=3).map(lambda t: ["gen", "tuple", t])
+    return st.one_of(cls, cls, gen1, gen1, gen2, gent)
 
 
 def case_strategy():
@@ -44,6 +45,7 @@ def case_strategy():
     @st.composite
     def _case(draw):
         two = draw(st.integers(0, 2)) == 0
+        kwmode = not two and draw(st.integers(0, 3)) == 0  # the type travels through a keyword-only parameter
         nm = draw(st.integers(1, 6))
         ann = st.one_of(
             inner_strategy().map(lambda i: ["type", i]), inner_strategy().map(lambda i: ["type", i]),
@@ -54,7 +56,11 @@ def case_strategy():
             pos = [{"name": "a0", "ann": draw(ann)}]
             if two:
                 pos.append({"name": "a1", "ann": draw(ordinary)})
-            methods.append({"id": i, "pos": pos, "kw": [], "prio": 0})
+            if kwmode:
+                methods.append({"id": i, "pos": [{"name": "a0", "ann": ["obj"]}],
+                                "kw": [{"name": "t", "ann": pos[0]["ann"]}], "prio": 0})
+            else:
+                methods.append({"id": i, "pos": pos, "kw": [], "prio": 0})
         passed = st.one_of(
             st.sampled_from([["clsobj", n] for n in KN + ["int", "str", "list", "dict", "object"]]),
             inner_strategy().filter(lambda i: i[0] == "gen").map(lambda i: ["genobj", i[1], i[2],
@@ -68,7 +74,7 @@ def case_strategy():
         for _ in range(draw(st.integers(2, 8))):
             if draw(st.booleans()):
                 m = draw(st.sampled_from(methods))
-                a = m["pos"][0]["ann"]
+                a = (m["kw"][0] if kwmode else m["pos"][0])["ann"]
                 if a[0] == "type" and len(a) == 2:
                     v = to_passed(a[1])
                 else:
@@ -79,7 +85,7 @@ def case_strategy():
             if two:
                 args.append(draw(st.sampled_from([["inst", "K0"], ["inst", "K1"], ["int", 1], ["str", "s"]])))
             calls.append(args)
-        return {"methods": methods, "calls": calls}
+        return {"methods": methods, "calls": calls, "kwmode": kwmode}
 
     return _case()
 
@@ -134,7 +140,7 @@ def sub(x, t, env):
     if not issubclass(ox, ot):
         return False
     if len(x[2]) != len(t[2]):
-        return None
+        return False  # argument-wise subtyping needs the same number of arguments
     vals = [sub(a, b, env) for a, b in zip(x[2], t[2])]
     if any(v is False for v in vals):
         return False
@@ -191,10 +197,14 @@ def order1(a, b, env):
     return S.order(na, nb, env)
 
 
+def typed_params(m):
+    return m["kw"] + m["pos"][1:] if m["kw"] else m["pos"]
+
+
 def resolve(methods, call, env):
     app = []
     for m in methods:
-        vs = [applicable1(p["ann"], v, env) for p, v in zip(m["pos"], call)]
+        vs = [applicable1(p["ann"], v, env) for p, v in zip(typed_params(m), call)]
         if any(v is None for v in vs):
             return ("unspec", "applicability")
         if all(vs):
@@ -207,7 +217,7 @@ def resolve(methods, call, env):
         for b in app:
             if b is a:
                 continue
-            os_ = [order1(p["ann"], q["ann"], env) for p, q in zip(a["pos"], b["pos"])]
+            os_ = [order1(p["ann"], q["ann"], env) for p, q in zip(typed_params(a), typed_params(b))]
             if any(o in (S.MORE, S.NONE) for o in os_):
                 ok = False
                 break
@@ -237,11 +247,13 @@ def run_case(spec):
     except Exception as e:  # noqa: BLE001
         res.fail(f"program construction failed: {type(e).__name__}: {e}", None)
         return res
-    plain_methods = [m for m in methods if all(p["ann"][0] != "type" for p in m["pos"])]
+    kwmode = spec.get("kwmode")
+    plain_methods = [m for m in methods if all(p["ann"][0] != "type" for p in m["pos"] + m["kw"])]
     prog2 = Program({"hier": HIER, "methods": plain_methods, "host": "func"}, env=env) if plain_methods else None
     try:
         related = False
-        tanns = [m["pos"][0]["ann"] for m in methods if m["pos"][0]["ann"][0] == "type" and len(m["pos"][0]["ann"]) == 2]
+        tanns = [typed_params(m)[0]["ann"] for m in methods
+                 if typed_params(m)[0]["ann"][0] == "type" and len(typed_params(m)[0]["ann"]) == 2]
         for i, a in enumerate(tanns):
             for b in tanns[i + 1:]:
                 if order1(a, b, env) in (S.LESS, S.MORE):
@@ -249,7 +261,10 @@ def run_case(spec):
         for call in spec["calls"]:
             args = [build_passed(v, env) for v in call]
             exp = resolve(methods, call, env)
-            out = prog.call(args)
+            kws = {}
+            if kwmode:
+                kws, args = {"t": args[0]}, [0]
+            out = prog.call(args, kws)
             got = ("method", out.value.mid) if out.kind == "ok" else ("nomethod",) if out.kind == "rejected" else (out.kind,)
             res.label("exp:" + exp[0], "passed:" + call[0][0])
             if out.kind in ("other", "badcall"):
@@ -259,9 +274,9 @@ def run_case(spec):
                 res.skipped.append("unspec:" + exp[1])
             elif got != exp:
                 res.fail(f"call {call}: expected {exp}, got {got} ({out.detail[:160]}); annotations "
-                         f"{[[p['ann'] for p in m['pos']] for m in methods]}", None)
+                         f"{[[p['ann'] for p in typed_params(m)] for m in methods]} kw-only={bool(kwmode)}", None)
             if as_inner(call[0]) is None and prog2 is not None:
-                o2 = prog2.call(args)
+                o2 = prog2.call(args, kws)
                 g2 = ("method", o2.value.mid) if o2.kind == "ok" else ("nomethod",) if o2.kind == "rejected" else (o2.kind,)
                 if g2 != got:
                     res.fail(f"ordinary call {call}: {got} with the type[...] methods present, {g2} without them", None)
